@@ -137,7 +137,7 @@ func C17(c *run.Ctx) {
 			kind := pick(r, []string{"right", "right", "right-with-conflicts", "right-with-conflicts", "wrong-client", "advance", "twice"})
 			if kind == "advance" {
 				d := pick(r, []time.Duration{time.Second, 30 * time.Second, effLife - time.Second, effLife, effLife + time.Second})
-				time.Sleep(d)
+				world.Sleep(d)
 				hist = append(hist, fmt.Sprintf("advance %s", d))
 				continue
 			}
